@@ -154,6 +154,7 @@ def c19(run):
     cases = cases + held
     for i, c in enumerate(cases):
         c["id"] = i
+        c["optRev"] = i % 2 == 1   # replay-only variant: the options are passed in the opposite order
     run.cov["edges_exported"], run.cov["edges_replayed"] = total, len(cases)
     run.cov["exhaustive"] = total <= len(cases)
     for c in cases[:1] + cases[len(cases) // 2:len(cases) // 2 + 1]:
